@@ -655,7 +655,7 @@ def r7(ctx):
                         caps_ = x[2][1][2]
                         inner = r_[2] if (r_[0] == 'un' and r_[1] == 'Not') else None
                         if inner is not None and is_call(inner, 'Slab::contains') and inner[2][1] == prm_ and \
-                                any(isinstance(z, tuple) and z[:1] == ('field',) and z[2] == 'arena' for z in walk(inner[2][0])):
+                                any(isinstance(z, tuple) and ((z[:1] == ('field',) and z[2] == 'arena') or (z[:1] == ('upvar',) and str(z[1]).endswith('arena'))) for z in walk(inner[2][0])):
                             via_find = True
                 site = '%s#invalid-index' % b.qname
                 if guarded or via_lookup or via_find:
